@@ -38,7 +38,7 @@ func runSweep(r *vrun.Run) {
 		runner, kind, parent uint8
 		offUs, rep           int32
 	}
-	names := []string{rRAWT, rCtx, rStore, kCoopNil, kCoopErr, kCoopLag, kBlind, kWaitOnly, pLive, pPre, pTm, pT, pTp}
+	names := []string{rRAWT, rCtx, rStore, kCoopNil, kCoopErr, kCoopLag, kBlind, kWaitOnly, pLive, pPre, pTm, pT, pTp, kDeafWait}
 	code := map[string]uint8{}
 	for i, n := range names {
 		code[n] = uint8(i)
@@ -58,6 +58,10 @@ func runSweep(r *vrun.Run) {
 		sc.BlindErr = rng.IntN(2) == 1
 		if kind != kCoopLag && kind != kWaitOnly {
 			sc.DeltaNs = 0
+		}
+		if kind == kDeafWait {
+			// an uninterruptible step shorter than, comparable to and much longer than the timeout itself
+			sc.DeltaNs = sc.TNs*[]int64{2, 3, 5, 12, 30}[rng.IntN(5)]/5 + int64(rng.IntN(1000))*1000
 		}
 		if parent == pLive || parent == pPre {
 			sc.EpsNs = 0
@@ -102,9 +106,14 @@ func runSweep(r *vrun.Run) {
 				add(rCtx, kWaitOnly, p, int64(i)*1000, rep)
 				add(rStore, kWaitOnly, p, int64(i)*1000, rep)
 			}
+			add(rRAWT, kDeafWait, pLive, int64(i)*1000, rep)
+			for _, p := range parents {
+				add(rCtx, kDeafWait, p, int64(i)*1000, rep)
+				add(rStore, kDeafWait, p, int64(i)*1000, rep)
+			}
 		}
 		for i := 0; i < 100; i++ {
-			for _, k := range append(kinds, kWaitOnly) {
+			for _, k := range append(kinds, kWaitOnly, kDeafWait) {
 				add(rCtx, k, pPre, int64(i-50)*1000, rep)
 				add(rStore, k, pPre, int64(i-50)*1000, rep)
 			}
@@ -253,7 +262,7 @@ func bubbleBody(sc scen, st *state, out *bubbleOut) {
 func relation(sc scen) string {
 	d, E := sc.D(), sc.E()
 	switch {
-	case sc.Kind == kWaitOnly:
+	case waitKind(sc.Kind):
 		return "never-finishes-alone"
 	case d < E:
 		return "before-signal-instant"
@@ -269,7 +278,7 @@ func judgeBubble(r *vrun.Run, sc scen, st *state, out *bubbleOut, deadlock strin
 		x := a - b
 		return x >= -50*time.Microsecond && x <= 50*time.Microsecond
 	}
-	nontrivial := sc.Kind != kWaitOnly && (near(d, T) || (P != inf && near(d, P))) || sc.Parent != pLive
+	nontrivial := !waitKind(sc.Kind) && (near(d, T) || (P != inf && near(d, P))) || sc.Parent != pLive
 	r.Case(sc.canonical(), nontrivial)
 	r.Obs("sweep_cases", 1)
 	rel := relation(sc)
@@ -370,11 +379,21 @@ func judgeBubble(r *vrun.Run, sc scen, st *state, out *bubbleOut, deadlock strin
 	}
 	// timeout/cancelled kind "once the action has observed its stop signal": a cooperative action with d > E can only
 	// have ended through its signal
-	if isKind && s.ActionInvoked && sc.coop() && sc.Kind != kWaitOnly && rel == "after-signal-instant" {
+	if isKind && s.ActionInvoked && sc.coop() && !waitKind(sc.Kind) && rel == "after-signal-instant" {
 		r.Obs("signal_delivery_checks", 1)
 		if !out.settledObserved {
 			r.Violation(sig("signal-not-delivered-on-"+cls, "kind", sc.Kind),
 				fmt.Sprintf("%s returned %q but the action (still working, d−E=%dns) never observed its signal", sc.Runner, errStr(s.Res), int64(d-E)), wit())
+		}
+	}
+	// timeout/cancelled kind "once the action has observed its stop signal", on the virtual clock: an action which
+	// looks at its signal only between two uninterruptible steps has looked at it by the instant the runner returns
+	if isKind && s.ActionInvoked && sc.Kind == kDeafWait {
+		r.Obs("time_kind_not_before_the_action_looked_checks", 1)
+		if o := st.obsNs.Load(); o == 0 || o-1 > s.RetNs {
+			base["action_looked_at_its_signal_at_ns"] = o - 1
+			r.Violation(sig("time-kind-before-the-action-observed-its-signal", "kind", sc.Kind, "parent", parentClass(sc)),
+				fmt.Sprintf("%s returned %q at +%v although the action (uninterruptible steps of %v) only looked at its stop signal at +%v", sc.Runner, errStr(s.Res), time.Duration(s.RetNs), sc.Delta(), time.Duration(o-1)), wit())
 		}
 	}
 	// RunActionWithTimeoutAndCancelStore: after store.Cancel() the action's context is done
